@@ -1385,3 +1385,141 @@ def rule_A12(repo: Repo) -> RuleResult:
     if n == 0:
         res.ok(api.func("BaseGroupBy.cumcount"), api.func("BaseGroupBy.cumcount").node, "no engine result is handed to a pandas constructor with index=", "", nontrivial=False)
     return res
+
+
+# ------------------------------------------------------------------------------------------------ P27 / P26b / P2c / P28
+
+def rule_P27(repo: Repo) -> RuleResult:
+    """Transform results carry the input's index.  In the transform branch of _apply_gb_reduction the index of the result is the
+    common index of the inputs whenever there is one (of whatever kind: an offset or stepped RangeIndex of a row slice is an
+    index like any other), and a fresh RangeIndex over the rows only when the inputs carry none."""
+    res = RuleResult("P27", "transform: the result is indexed by the inputs' common index whenever there is one")
+    from .canon import canon_func
+    f = canon_func(repo, "groupby.core", "GroupBy._apply_gb_reduction")
+    arms = [i for i in walk_no_nested(f.node) if isinstance(i, ast.If) and norm(i.test) in ("transform", "not transform")]
+    if not arms:
+        raise AnalysisError("P27: transform branch of _apply_gb_reduction not found")
+    arm = arms[0].body if norm(arms[0].test) == "transform" else arms[0].orelse
+    n = 0
+    for p in enumerate_paths(arm, split_bool=True):
+        if p.exit == "raise" or infeasible(p):
+            continue
+        has_index = None
+        for t, pol in p.conds:
+            if isinstance(t, ast.Compare) and len(t.ops) == 1 and norm(t.left) == "common_index" and norm(t.comparators[0]) == "None":
+                has_index = (pol is True) if isinstance(t.ops[0], ast.IsNot) else (pol is False)
+        defs = [st for st in p.stmts if isinstance(st, ast.Assign) and any(isinstance(t, ast.Name) and t.id == "result_index" for t in st.targets)]
+        if not defs:
+            continue
+        n += 1
+        last = defs[-1]
+        desc = p.describe()[:80]
+        if has_index is True and norm(last.value) != "common_index":
+            res.bad(f, last, f"transform: {norm(last)} on {desc}",
+                    "the inputs carry an index but the transform result is not labelled with it: values given as a row slice of a longer "
+                    "object (offset / stepped RangeIndex) come back with labels 0..n-1 and mis-align when assigned back", path=p.describe())
+        elif has_index is False and "RangeIndex" not in norm(last.value):
+            res.bad(f, last, f"transform: {norm(last)} on {desc}", "without an input index the transform result must be indexed 0..n-1", path=p.describe())
+        elif has_index is None and norm(last.value) != "common_index":
+            res.bad(f, last, f"transform: {norm(last)} on {desc}", "the result index is chosen without testing whether the inputs carry an index", path=p.describe())
+        else:
+            res.ok(f, last, f"transform: {norm(last)} on {desc}", "", nontrivial=False)
+    if n < 2:
+        raise AnalysisError(f"P27: only {n} transform paths assign the result index (floor 2)")
+    return res
+
+
+def rule_P26b(repo: Repo) -> RuleResult:
+    """mean_from_sum_count divides temporal sums by floor division and relies on pandas' semantics (a zero divisor gives NaN,
+    hence NaT): both operands must be pandas objects at every call site - pd.Series(..), a column of a DataFrame, or a
+    re-indexed one - never bare NumPy arrays (where `//` by a zero count gives 0: the epoch instead of NaT)."""
+    res = RuleResult("P26b", "mean_from_sum_count is handed pandas objects (its floor division relies on pandas' zero-divisor semantics)")
+    from .canon import subst_single_defs
+    core = repo.mod("groupby.core")
+    n = 0
+    for f in core.functions.values():
+        frames = {s.targets[0].id for s in walk_no_nested(f.node) if isinstance(s, ast.Assign) and len(s.targets) == 1
+                  and isinstance(s.targets[0], ast.Name) and isinstance(s.value, ast.Call) and norm(s.value.func) in ("pd.DataFrame", "pd.Series")}
+
+        def pandas_object(e: ast.AST) -> bool:
+            if isinstance(e, ast.Call) and norm(e.func) in ("pd.Series", "pd.DataFrame"):
+                return True
+            if isinstance(e, ast.Call) and isinstance(e.func, ast.Attribute) and e.func.attr in ("reindex", "astype", "rename", "copy", "loc", "iloc"):
+                return pandas_object(e.func.value)
+            if isinstance(e, ast.Subscript):
+                return pandas_object(e.value)
+            if isinstance(e, ast.Attribute) and e.attr in ("loc", "iloc"):
+                return pandas_object(e.value)
+            if isinstance(e, ast.Name):
+                return e.id in frames
+            return False
+        for c in ast.walk(f.node):
+            if isinstance(c, ast.Call) and (call_name(c) or norm(c.func)).split(".")[-1] == "mean_from_sum_count":
+                args = list(c.args) + [k.value for k in c.keywords]
+                for a in args:
+                    n += 1
+                    if pandas_object(a):
+                        res.ok(f, c, f"{f.qualname}: mean_from_sum_count(.. {norm(a)[:50]} ..)", "pandas object")
+                    else:
+                        res.bad(f, c, f"{f.qualname}: mean_from_sum_count(.. {norm(a)[:50]} ..)",
+                                "mean_from_sum_count is handed something that is not visibly a pandas object: for temporal sums it floor-divides, "
+                                "and NumPy's `//` by a zero count is 0 - rows with a null key or an empty / fully masked group get the epoch "
+                                "(1970-01-01) instead of NaT")
+    if n < 4:
+        raise AnalysisError(f"P26b: only {n} operands of mean_from_sum_count found (floor 4)")
+    return res
+
+
+def rule_P2c(repo: Repo) -> RuleResult:
+    """Every value column is divided by ITS OWN counts.  The kernel results arrive as (columns, counts) in parallel; the mean
+    pairs them position by position.  The per-column counts are never indexed by a constant (counts[0] applied to all columns:
+    columns whose missing values fall in different rows get each other's counts)."""
+    res = RuleResult("P2c", "mean: column j is divided by the counts of column j (no constant index into the per-column counts)")
+    from .canon import canon_func
+    f = canon_func(repo, "groupby.core", "GroupBy._apply_gb_reduction")
+    bad = [x for x in walk_no_nested(f.node) if isinstance(x, ast.Subscript) and isinstance(x.value, ast.Name) and x.value.id == "counts"
+           and const_int(x.slice) is not None and isinstance(x.ctx, ast.Load)]
+    for x in bad:
+        res.bad(f, x, f"_apply_gb_reduction: {norm(x)}",
+                "the per-column counts are indexed by a constant: the counts of one value column are applied to every column, so a column "
+                "whose missing values sit in other rows is divided by the wrong count (mean != sum / count)")
+    pairs = [c for c in ast.walk(f.node) if isinstance(c, ast.Call) and norm(c.func) == "zip" and len(c.args) >= 2
+             and {norm(a) for a in c.args} >= {"result_columns", "counts"}]
+    if pairs:
+        res.ok(f, pairs[0], f"_apply_gb_reduction: {norm(pairs[0])}", "columns and their counts are paired position by position")
+    elif not bad:
+        raise AnalysisError("P2c: the pairing of result columns with their counts (zip(result_columns, counts)) is not found")
+    return res
+
+
+def rule_P28(repo: Repo) -> RuleResult:
+    """Results converted back to pandas / polars keep the dtype the conversion gave them.  A series that comes out of
+    _convert_arr_to_pandas_series / _convert_arr_to_polars_series is not passed through a pandas operation that silently
+    changes an integer dtype (`.mask(..)` / `.where(..)` insert NaN and turn int64 into float64: integers above 2**53 are
+    rounded, cumulative sums stop being exact)."""
+    res = RuleResult("P28", "converted results are not passed through dtype-changing pandas operations (.mask / .where / float casts)")
+    core = repo.mod("groupby.core")
+    UPCASTING = ("mask", "where")
+    n = 0
+    for f in core.functions.values():
+        conv = {s.targets[0].id for s in walk_no_nested(f.node) if isinstance(s, ast.Assign) and len(s.targets) == 1
+                and isinstance(s.targets[0], ast.Name) and isinstance(s.value, ast.Call)
+                and (call_name(s.value) or norm(s.value.func)).split(".")[-1] in ("_convert_arr_to_pandas_series", "_convert_arr_to_polars_series")}
+        sites = [c for c in walk_no_nested(f.node) if isinstance(c, ast.Call)
+                 and (call_name(c) or norm(c.func)).split(".")[-1] in ("_convert_arr_to_pandas_series", "_convert_arr_to_polars_series")]
+        n += len(sites)
+        for c in walk_no_nested(f.node):
+            if isinstance(c, ast.Call) and isinstance(c.func, ast.Attribute) and c.func.attr in UPCASTING:
+                base = c.func.value
+                direct = isinstance(base, ast.Call) and (call_name(base) or norm(base.func)).split(".")[-1] in (
+                    "_convert_arr_to_pandas_series", "_convert_arr_to_polars_series")
+                if direct or (isinstance(base, ast.Name) and base.id in conv):
+                    res.bad(f, c, f"{f.qualname}: {norm(c)[:80]}",
+                            f".{c.func.attr}(..) on a converted result inserts NaN and turns an integer result into float64: values above "
+                            f"2**53 are rounded at rows that do have a group (cumulative sums / counts are no longer exact)")
+    if n < 5:
+        raise AnalysisError(f"P28: only {n} conversions of kernel results to pandas / polars found (floor 5)")
+    if not res.violations:
+        res.ok(core.func("GroupBy._convert_arr_to_pandas_series"), core.func("GroupBy._convert_arr_to_pandas_series").node,
+               f"{n} conversions; none is post-processed by .mask / .where", "")
+    return res
